@@ -149,6 +149,7 @@ func TestCheck(t *testing.T) {
 	jobs = append(jobs, job{"trio"})
 	// every test as the FIRST test on a fresh server with the default starting election id,
 	// and ordered pairs of tests on fresh servers (quick: a seeded sample; thorough: all of them)
+	jobs = append(jobs, job{"slowteardown"})
 	nShort := run.Pick(8, 32)
 	for k := 0; k < nShort; k++ {
 		jobs = append(jobs, job{fmt.Sprintf("short:%d:%d", k, nShort)})
@@ -208,6 +209,8 @@ func TestChild(t *testing.T) {
 		conformant(col, wr, sp, configs[c], p)
 	case "trio":
 		trio(col, wr, sp)
+	case "slowteardown":
+		slowTeardown(col, wr, sp)
 	case "short":
 		var k, n int
 		fmt.Sscanf(parts[1], "%d", &k)
@@ -302,6 +305,49 @@ func conformant(col *child.Collector, wr *child.Writer, sp *child.Spec, cfg conf
 	if perm == 0 {
 		col.Sample(map[string]any{"case": caseID, "first_tests_of_the_order": names[:8]})
 	}
+}
+
+// slowTeardown: a conformant server that takes 3.5 s to act on a client's half-close (every
+// Stop of a client therefore takes that long). Tests that negotiate RIB acknowledgements and
+// tests that negotiate FIB acknowledgements alternate on the one long-lived server: each
+// must find the sessions of its predecessor gone.
+func slowTeardown(col *child.Collector, wr *child.Writer, sp *child.Spec) {
+	cfg := configs[0]
+	setConfig(cfg)
+	main, err := newServer(cfg, false)
+	if err != nil {
+		col.Fatal(err.Error())
+		return
+	}
+	e := &env{gs: drv.Serve(&proxy{inner: main, eofDelay: 3500 * time.Millisecond})}
+	defer e.gs.Stop()
+	seq := []string{
+		"Add IPv4 entry that can be programmed on the server - with RIB ACK",
+		"Add IPv4 entry that can be programmed on the server - with FIB ACK",
+		"Get for installed NH - RIB ACK",
+	}
+	if sp.Tier == "thorough" {
+		seq = append(seq, "Get for installed NH - FIB ACK", "Delete NH entry successfully - RIB ACK", "Delete NH entry successfully - FIB ACK")
+	}
+	var names []string
+	for _, n := range seq {
+		tt := byName(n)
+		if tt == nil {
+			col.Fatal("slow teardown: no such test " + n)
+			return
+		}
+		wr.InFlight("slowteardown / " + n)
+		v := runTest(e, tt)
+		names = append(names, n)
+		if v.failed {
+			col.Violation("slowteardown", "conformant-server-fails:"+sanit(n), fmt.Sprintf("%q failed on a conformant reference server that takes 3.5 s to act on a client's half-close (position %d, order %v): %s", n, len(names), names, strings.Join(v.msgs, " | ")), nil)
+		}
+		col.Count("test_executions", 1)
+		col.Count("tests_on_a_slow_teardown_server", 1)
+	}
+	col.Eval(1)
+	col.Distinct("slowteardown" + fmt.Sprint(seq))
+	col.Seen("configurations", "base1/slow-teardown-3.5s")
 }
 
 // shortOrders: sequences of one or two tests, each sequence on fresh servers with the
